@@ -148,7 +148,7 @@ def render(I, arg, opt):
         if tn == "char":
             c = I.W.choose(v)
             return _pad(I, _escape_debug_str(chr(c).encode(), "'"), opt, False)
-        if _INT.match(ty) or ty == "":
+        if _INT.match(ty) or ty == "" or re.match(r"^&*[A-Z]\w*$", ty):       # a generic parameter holding an integer: printed as unsigned
             c = I.W.choose(v, 0, 1 << 64)
             w = _W.get(tn, 64)
             if tn.startswith("i") and c >= 1 << (w - 1): c -= 1 << w
@@ -181,6 +181,17 @@ def render(I, arg, opt):
                 out.append(b)
             bs = out
         return _pad(I, bs, opt, False)
+    if kind == "new_debug" and ((t is VecObj and v.ty != "String") or (t is SliceRef and not v.is_str) or (t is Agg and v.ty == "array")):
+        items = list(v.items()) if t is SliceRef else list(v.f)
+        out = [0x5B]
+        for i, x in enumerate(items):
+            if i: out += list(b", ")
+            out += render(I, Agg([x], "FmtArg:new_debug:"), Opt())
+        return out + [0x5D]
+    if kind == "new_debug" and t is Agg and v.ty == "Range" and len(v.f) == 2:
+        return render(I, Agg([v.f[0]], "FmtArg:new_debug:"), Opt()) + [0x2E, 0x2E] + render(I, Agg([v.f[1]], "FmtArg:new_debug:"), Opt())
+    if kind == "new_debug" and t is Enum and v.ty == "Option":
+        return list(b"None") if v.idx == 0 else list(b"Some(") + render(I, Agg([v.f[0]], "FmtArg:new_debug:"), Opt()) + [0x29]
     # a user type: run its Display / Debug impl from the MIR
     tr = "Debug" if kind == "new_debug" else "Display" if kind == "new_display" else None
     rt = I.runtime_type(v)
@@ -199,7 +210,7 @@ def render(I, arg, opt):
                     inner = I.read(p.cell, p.path)
                     if type(unwrap_ptr(inner)) is Ptr: p = unwrap_ptr(inner); continue
                 break
-            if opt.flags & (1 << 23): raise Unsupported("{:#?} of a user type")
+            if tr == "Debug" and opt.flags & (1 << 23): raise Unsupported("{:#?} of a user type")
             r = I.run(f, [p if type(p) is Ptr else Ptr(Cell(v)), Ptr(Cell(fm))])
             if type(r) is Enum and r.idx == 1: raise Unsupported("Display impl returned Err")
             return list(sink.f)
@@ -332,3 +343,63 @@ def _debug_tuple(nfields):
 for _k in range(1, 6):
     S[f"Formatter::debug_struct_field{_k}_finish"] = S[f"core::fmt::Formatter::debug_struct_field{_k}_finish"] = _debug_struct(_k)
     S[f"Formatter::debug_tuple_field{_k}_finish"] = S[f"core::fmt::Formatter::debug_tuple_field{_k}_finish"] = _debug_tuple(_k)
+
+
+@summary("Formatter::alternate", "core::fmt::Formatter::alternate")
+def _(I, p): return bool(_fm(I, p).f[1].flags & (1 << 23))
+@summary("Formatter::width", "core::fmt::Formatter::width")
+def _(I, p):
+    w = _fm(I, p).f[1].width
+    return none() if w is None else some(w)
+
+
+# ---------------- the builder API used by hand-written Debug impls (debug_struct / debug_list / debug_tuple)
+def _builder(I, p):
+    b = I.deref(p)
+    if type(b) is not Agg or not b.ty.startswith("Debug"): raise Unsupported("fmt builder not created by the fmt summaries")
+    return b
+
+
+@summary("Formatter::debug_struct", "core::fmt::Formatter::debug_struct")
+def _(I, p, name):
+    fm = _fm(I, p)
+    if fm.f[1].flags & (1 << 23): raise Unsupported("{:#?}")
+    fm.f[0].f.extend(_name(I, name))
+    return Agg([p, 0], "DebugStruct")
+@summary("DebugStruct::field", "core::fmt::DebugStruct::field", "fmt::DebugStruct::field", "core::fmt::builders::DebugStruct::field")
+def _(I, bp, name, val):
+    b = _builder(I, bp); out = _fm(I, b.f[0]).f[0].f
+    out.extend(b" { " if b.f[1] == 0 else b", "); b.f[1] += 1
+    out.extend(_name(I, name)); out.extend(b": "); out.extend(_dbg(I, val))
+    return bp
+@summary("DebugStruct::finish", "core::fmt::DebugStruct::finish", "fmt::DebugStruct::finish", "core::fmt::builders::DebugStruct::finish")
+def _(I, bp):
+    b = _builder(I, bp)
+    if b.f[1]: _fm(I, b.f[0]).f[0].f.extend(b" }")
+    return ok(UNIT)
+@summary("Formatter::debug_list", "core::fmt::Formatter::debug_list")
+def _(I, p):
+    fm = _fm(I, p)
+    if fm.f[1].flags & (1 << 23): raise Unsupported("{:#?}")
+    fm.f[0].f.extend(b"[")
+    return Agg([p, 0], "DebugList")
+@summary("DebugList::entries", "core::fmt::DebugList::entries", "fmt::DebugList::entries", "core::fmt::builders::DebugList::entries")
+def _(I, bp, it):
+    from .summaries import iter_to_list
+    b = _builder(I, bp); out = _fm(I, b.f[0]).f[0].f
+    for x in iter_to_list(I, it):
+        if b.f[1]: out.extend(b", ")
+        b.f[1] += 1
+        out.extend(_dbg(I, x))
+    return bp
+@summary("DebugList::entry", "core::fmt::DebugList::entry", "fmt::DebugList::entry", "core::fmt::builders::DebugList::entry")
+def _(I, bp, x):
+    b = _builder(I, bp); out = _fm(I, b.f[0]).f[0].f
+    if b.f[1]: out.extend(b", ")
+    b.f[1] += 1
+    out.extend(_dbg(I, x))
+    return bp
+@summary("DebugList::finish", "core::fmt::DebugList::finish", "fmt::DebugList::finish", "core::fmt::builders::DebugList::finish")
+def _(I, bp):
+    b = _builder(I, bp); _fm(I, b.f[0]).f[0].f.extend(b"]")
+    return ok(UNIT)
